@@ -236,14 +236,14 @@ Proof.
 Qed.
 
 (* the code's timeout test is the property's "at most issue time plus timeout" *)
-Lemma timed_out_spec c ts nw :
-  timed_out c ts nw = match timeout c with
-                      | Some t => negb (Z.eqb t 0) && negb (Z.leb nw (ts + t))
+Lemma timed_out_spec c ts n2 :
+  timed_out c ts n2 = match timeout c with
+                      | Some t => negb (Z.eqb t 0) && negb (Z.leb n2 (2 * (ts + t)))
                       | None => false
                       end.
 Proof.
   unfold timed_out. destruct (timeout c) as [t|]; [|reflexivity].
-  change (cmp_eval timeout_cmp (ts + t) nw) with (Z.ltb (ts + t) nw).
+  change (cmp_eval timeout_cmp (2 * (ts + t)) n2) with (Z.ltb (2 * (ts + t)) n2).
   rewrite Z.leb_antisym. rewrite negb_involutive. reflexivity.
 Qed.
 
@@ -257,7 +257,7 @@ Theorem identify_roundtrip c r r' u ma toks hs k v :
   remember H c r u ma toks = Some hs -> In k hs -> ck_value k = Some v ->
   cookie r' = Some v -> eff_ip c r' = eff_ip c r ->
   identify_pre H dsz uni c r' =
-  match spec_issued_identity c (Z.to_N (now r)) u (match toks with [] => [[]] | _ => toks end) (now r') with
+  match spec_issued_identity c (Z.to_N (now r)) u (match toks with [] => [[]] | _ => toks end) (now2 r') with
   | Some (ts, u', tk) => ISome ts u' tk (userid_typename ++ tag_of u)
   | None => INone
   end.
@@ -274,21 +274,23 @@ Proof.
   rewrite timed_out_spec. unfold spec_issued_identity. rewrite !Z2N.id by lia.
   rewrite U4, ED.
   destruct (timeout c) as [t|]; [|reflexivity].
-  destruct (negb (Z.eqb t 0) && negb (Z.leb (now r') (now r + t))); reflexivity.
+  destruct (negb (Z.eqb t 0) && negb (Z.leb (now2 r') (2 * (now r + t)))); reflexivity.
 Qed.
 
 End RT.
 
-(* boundary: accepted at now = issue + timeout, rejected one second later *)
+(* boundary (arguments are twice the clock value): accepted at now = issue + timeout, rejected half a
+   second and one second later *)
 Corollary identify_boundary c t0 u toks t :
   timeout c = Some t -> (0 < t)%Z ->
-  spec_issued_identity c t0 u toks (Z.of_N t0 + t) = Some (Z.of_N t0, u, toks)
-  /\ spec_issued_identity c t0 u toks (Z.of_N t0 + t + 1) = None.
+  spec_issued_identity c t0 u toks (2 * (Z.of_N t0 + t)) = Some (Z.of_N t0, u, toks)
+  /\ spec_issued_identity c t0 u toks (2 * (Z.of_N t0 + t) + 1) = None
+  /\ spec_issued_identity c t0 u toks (2 * (Z.of_N t0 + t + 1)) = None.
 Proof.
   intros Ht Hpos. unfold spec_issued_identity. rewrite Ht.
   assert (E0 : Z.eqb t 0 = false) by lia. rewrite E0.
-  assert (E1 : Z.leb (Z.of_N t0 + t) (Z.of_N t0 + t) = true) by lia.
-  assert (E2 : Z.leb (Z.of_N t0 + t + 1) (Z.of_N t0 + t) = false) by lia.
-  rewrite E1, E2. split; reflexivity.
+  assert (E1 : Z.leb (2 * (Z.of_N t0 + t)) (2 * (Z.of_N t0 + t)) = true) by lia.
+  assert (E2 : Z.leb (2 * (Z.of_N t0 + t) + 1) (2 * (Z.of_N t0 + t)) = false) by lia.
+  assert (E3 : Z.leb (2 * (Z.of_N t0 + t + 1)) (2 * (Z.of_N t0 + t)) = false) by lia.
+  rewrite E1, E2, E3. repeat split; reflexivity.
 Qed.
-
